@@ -393,8 +393,15 @@ def run_task(task):
             continue
         res["evals"] += P.n
         if I["grid_check"] > 1e-3:
-            raise RuntimeError("dense-call node values and two-point-call values differ by %.3g: the internal grid is no "
-                               "longer linspace(0, max(r), 3001); props/C11.py must be adapted" % I["grid_check"])
+            # the values of the dense call at its own grid nodes and the values of two-point calls placed on those nodes are
+            # both 'the returned solution at that radius'; the unchanged code agrees to rounding.  A disagreement means the
+            # returned profile depends on the batch far beyond the documented 3001-point resolution, so 'the integral of the
+            # returned solution' is not even defined: reported as a violation (it was a harness error until the seeded change
+            # S-C11-3, a root bracket that collapses the vacuum-type profile to a ramp, showed it can be the code's doing);
+            # the integrals below are still judged on the dense call
+            res["violations"].append({"solver": "Sedov", "cfg": cfg, "clause": "sedov:profile-depends-on-batch-beyond-resolution",
+                                      "where": {"t": t}, "value": float(I["grid_check"]), "tol": 1e-3,
+                                      "detail": {"note": "dense-call node values vs two-point-call values"}})
         E0 = cfg["eblast"]
         M0 = cfg["rho0"] * vf * lo ** (j - om) / (j - om)
         checks = [("sedov:energy-behind-shock", float(oracle.mismatch(np.array([I["E"]]), np.array([E0]))[0]), TOL_E,
